@@ -379,6 +379,80 @@ Proof.
   rewrite Hf, wsteps_total. cbn [snd]. rewrite Ht, <- app_assoc. reflexivity.
 Qed.
 
+(* ------------------------------------------------------------------ the LTS and the write list of Response.Write *)
+Lemma wsteps_app cap pats s ws1 ws2 :
+  wsteps cap pats s (ws1 ++ ws2) = wsteps cap pats (wsteps cap pats s ws1) ws2.
+Proof. unfold wsteps. apply fold_left_app. Qed.
+
+Lemma run_seq cap pats chunked reads :
+  Forall (fun d => d <> []) reads -> forall s, rs_avail s = [] ->
+  let s' := relay_run cap pats chunked s (seq_schedule reads) in
+  rs_avail s' = [] /\ rs_reads s' = rs_reads s ++ reads /\
+  (rs_last s', rs_bw s') = wsteps cap pats (rs_last s, rs_bw s) (flat_map (read_writes chunked) reads).
+Proof.
+  unfold relay_run, seq_schedule.
+  induction 1 as [|d reads Hd _ IH]; intros s Hav; cbn zeta.
+  - cbn. rewrite app_nil_r. auto.
+  - cbn [flat_map app fold_left].
+    destruct d as [|d0 d']; [congruence|].
+    assert (E1 : firstn (S (length (d0 :: d') - 1)) (d0 :: d') = d0 :: d').
+    { cbn [length]. rewrite Nat.sub_succ, Nat.sub_0_r. apply (firstn_all (d0 :: d')). }
+    assert (E2 : skipn (S (length (d0 :: d') - 1)) (d0 :: d') = []).
+    { cbn [length]. rewrite Nat.sub_succ, Nat.sub_0_r. apply (skipn_all (d0 :: d')). }
+    set (s1 := relay_step cap pats chunked (relay_step cap pats chunked s (Arrive (d0 :: d'))) (Read (length (d0 :: d') - 1))).
+    assert (Es1 : s1 = mkRs [] (fst (wsteps cap pats (rs_last s, rs_bw s) (read_writes chunked (d0 :: d'))))
+                            (snd (wsteps cap pats (rs_last s, rs_bw s) (read_writes chunked (d0 :: d'))))
+                            (rs_reads s ++ [d0 :: d']) (rs_arrived s ++ d0 :: d')).
+    { unfold s1. cbn [relay_step rs_avail rs_last rs_bw rs_reads rs_arrived]. rewrite Hav. cbn [app].
+      rewrite E1, E2. reflexivity. }
+    destruct (IH s1 ltac:(rewrite Es1; reflexivity)) as (Ha & Hr & Hw). split; [exact Ha|]. split.
+    + rewrite Hr, Es1. cbn [rs_reads]. rewrite <- app_assoc. reflexivity.
+    + rewrite Hw, Es1. cbn [rs_last rs_bw]. rewrite wsteps_app.
+      destruct (wsteps cap pats (rs_last s, rs_bw s) (read_writes chunked (d0 :: d'))). reflexivity.
+Qed.
+
+Lemma flat_map_single (l : list str) : flat_map (read_writes false) l = l.
+Proof. induction l as [|x l IH]; [reflexivity|]. cbn [flat_map read_writes app]. rewrite IH. reflexivity. Qed.
+
+Lemma go_writes_relay_shape meth r :
+  g_head (go_state meth r) = false ->
+  g_te (go_state meth r) = true \/ (g_cl (go_state meth r) =? -1)%Z = true ->
+  go_writes meth r =
+  go_head_writes meth r ++ flat_map (read_writes (g_te (go_state meth r))) (reads_of r) ++ go_tail meth r.
+Proof.
+  intros Hh Hk. unfold go_writes, go_body_writes, go_tail. cbv zeta. rewrite Hh. f_equal.
+  destruct (g_te (go_state meth r)) eqn:Ht.
+  - change (flat_map (read_writes true)) with (flat_map chunk_writes). rewrite <- !app_assoc. reflexivity.
+  - destruct Hk as [Hk | Hk]; [discriminate|]. rewrite Hk, flat_map_single. reflexivity.
+Qed.
+
+(* T02_relay_refines_response_write.  Under the schedule in which every read arrives and is read
+   at once, the LTS does to the connection's buffer exactly what the write list of (modelled)
+   Response.Write does — the list that gcases / ecases compare with the implementation byte for
+   byte: same final state of the pattern writer, same Write calls on the connection. *)
+Theorem relay_refines_response_write cap pats meth r :
+  g_head (go_state meth r) = false ->
+  g_te (go_state meth r) = true \/ (g_cl (go_state meth r) =? -1)%Z = true ->
+  let s := relay_finish cap pats
+             (relay_run cap pats (g_te (go_state meth r)) (relay_init cap pats (go_head_writes meth r))
+                        (seq_schedule (reads_of r)))
+             (go_tail meth r) in
+  let W := wsteps cap pats (0, bw_empty) (go_writes meth r) in
+  rs_last s = fst W /\ rs_bw s = bw_flush (snd W) /\ rs_reads s = reads_of r /\ rs_avail s = [].
+Proof.
+  intros Hh Hk. cbv zeta.
+  assert (Hne : Forall (fun d => d <> []) (reads_of r)).
+  { unfold reads_of. apply Forall_forall. intros y Hy. apply filter_In in Hy as [_ Hy]. destruct y; discriminate. }
+  destruct (run_seq cap pats (g_te (go_state meth r)) (reads_of r) Hne (relay_init cap pats (go_head_writes meth r)) eq_refl)
+    as (Ha & Hr & Hw).
+  cbv zeta in Ha, Hr, Hw.
+  rewrite (go_writes_relay_shape meth r Hh Hk), !wsteps_app.
+  unfold relay_finish. cbn [rs_last rs_bw rs_reads rs_avail]. rewrite Hw.
+  cbn [relay_init rs_last rs_bw] in *.
+  destruct (wsteps cap pats (0, bw_empty) (go_head_writes meth r)) as [l0 b0]. cbn [fst snd].
+  repeat split; [exact Hr | exact Ha].
+Qed.
+
 (* ------------------------------------------------------------------ non-vacuity *)
 (* a 4-byte buffer, an event arriving in three pieces and read in other pieces, a second,
    incomplete event: the first event is on the connection, the second still in the buffer *)
